@@ -7,6 +7,16 @@ export GOPROXY=off GOFLAGS=-mod=mod
 mkdir -p bin evidence replays .build
 go build -o bin/vcheck ./cmd/vcheck
 ./bin/vcheck build
+# warm the cross-compilation caches used by C13 (standard library per target)
+if [ -d /repo ]; then
+  ( cd /repo && for t in linux/386 linux/arm linux/arm64 linux/riscv64 linux/mips linux/ppc64le linux/s390x js/wasm wasip1/wasm windows/arm64 windows/386 darwin/arm64 freebsd/amd64; do
+      GOOS=${t%/*} GOARCH=${t#*/} CGO_ENABLED=0 GOFLAGS=-mod=mod GOPROXY=off GOWORK=off GOCACHE=/verif/.build/gocache go build std >/dev/null 2>&1 &
+      if [ $(jobs -r | wc -l) -ge 4 ]; then wait -n 2>/dev/null || wait; fi
+    done; wait )
+  # race-enabled harness (C10's free-running pass) and the js/wasm harness (C13)
+  ( cd /repo && GOFLAGS=-mod=mod GOPROXY=off GOWORK=off GOCACHE=/verif/.build/gocache go build -race -overlay /verif/.build/warm/overlay.json -o /verif/.build/warm/harness-race ./internal/zzverif/cmd/harness >/dev/null 2>&1
+    GOOS=js GOARCH=wasm GOFLAGS=-mod=mod GOPROXY=off GOWORK=off GOCACHE=/verif/.build/gocache go build -overlay /verif/.build/warm/overlay.json -o /verif/.build/warm/harness.wasm ./internal/zzverif/cmd/harness >/dev/null 2>&1 ) || true
+fi
 if [ -f tools/arbiter.c ]; then
   gcc -O1 -o bin/arbiter tools/arbiter.c -l:libwebp.so.7 2>/dev/null || echo "setup: libwebp arbiter not built (optional)"
 fi
